@@ -4,6 +4,7 @@ import (
 	"fmt"
 	"sort"
 	"strings"
+	"time"
 
 	"github.com/jamf/regatta/storage/cluster"
 	"github.com/lni/dragonboat/v4"
@@ -27,11 +28,87 @@ func svStr(v dragonboat.ShardView) string {
 
 // hView: random multisets of shard updates delivered in several orders, with duplicates and split
 // across update calls, through the real mergeShardInfo / shardView.update.
+// realGossip: two nodes built by the real cluster.New (the wiring of the Cluster, its memberlist delegate and
+// the shard view they share is the constructor's, not the harness's) over a real memberlist on loopback.
+// Each node knows one shard's state from its own Raft information; the second joins the first (memberlist
+// exchanges the full state on join); afterwards BOTH nodes must report, through Cluster.ShardInfo - what
+// response headers are built from -, the model's merge of the two: the leader of the higher term, the
+// membership of the higher configuration-change index.
+func realGossip(out *Out, sc int) {
+	type local struct{ l []dragonboat.ShardInfo }
+	locals := []*local{{}, {}}
+	mk := func(i int) (*cluster.Cluster, string) {
+		addr := fmt.Sprintf("127.0.0.1:%d", freePort())
+		c, err := cluster.New(addr, "", "verif-view", fmt.Sprintf("n%d-%d-%s", sc, i, addr), func() cluster.Info {
+			return cluster.Info{NodeID: uint64(i + 1), ShardInfoList: locals[i].l}
+		})
+		must(err)
+		return c, addr
+	}
+	ups := [][]dragonboat.ShardView{
+		{{ShardID: 1, Replicas: map[uint64]string{1: "a", 2: "b", 3: "c"}, ConfigChangeIndex: 1, LeaderID: 1, Term: uint64(5 + sc)},
+			{ShardID: 2, Replicas: map[uint64]string{1: "a"}, ConfigChangeIndex: 4, LeaderID: 0, Term: 9}},
+		{{ShardID: 1, Replicas: map[uint64]string{1: "a", 2: "b", 3: "c", 4: "d"}, ConfigChangeIndex: 3, LeaderID: 2, Term: uint64(7 + sc)},
+			{ShardID: 2, Replicas: map[uint64]string{1: "a", 2: "b"}, ConfigChangeIndex: 2, LeaderID: 1, Term: 3}},
+	}
+	a, addrA := mk(0)
+	defer a.Close()
+	b, _ := mk(1)
+	defer b.Close()
+	out.Line("reset", "ok")
+	nodes := []*cluster.Cluster{a, b}
+	for i := range nodes {
+		out.Line(fmt.Sprintf("nnew %d", i), "ok")
+		var sb strings.Builder
+		for _, u := range ups[i] {
+			locals[i].l = append(locals[i].l, dragonboat.ShardInfo{ShardID: u.ShardID, Replicas: u.Replicas, ConfigChangeIndex: u.ConfigChangeIndex, LeaderID: u.LeaderID, Term: u.Term})
+			sb.WriteString(" ; " + svStr(u))
+		}
+		out.Line(fmt.Sprintf("local %d %d%s", i, len(ups[i]), sb.String()), "ok")
+		nodes[i].Notify()
+		out.Line(fmt.Sprintf("notify %d", i), "ok")
+	}
+	a.Start(nil)
+	b.Start([]string{addrA})
+	out.Line("gossip 1 0", "ok")
+	out.Line("gossip 0 1", "ok")
+	// what both must converge to: node 0 after hearing node 1 (the model's answer); poll the real nodes
+	want := map[uint64]string{}
+	for k := range nodes {
+		for _, id := range []uint64{1, 2} {
+			got := ""
+			for i := 0; i < 150; i++ {
+				got = svStr(nodes[k].ShardInfo(id))
+				if w, ok := want[id]; !ok || w == got {
+					if k == 0 && i < 20 && !ok {
+						// node 0: give the join's state exchange a moment before taking its answer as it is
+						other := svStr(nodes[1].ShardInfo(id))
+						if other != got {
+							time.Sleep(100 * time.Millisecond)
+							continue
+						}
+					}
+					break
+				}
+				time.Sleep(100 * time.Millisecond)
+			}
+			if k == 0 {
+				want[id] = got
+			}
+			out.Line(fmt.Sprintf("nget %d %d", k, id), "ok "+got)
+		}
+	}
+	out.Count("real_gossip")
+}
+
 func hView(dir string) {
 	out := NewOut(dir)
 	defer out.Close()
 	r := newRand(19)
 	n := envInt("VERIF_N", 1500)
+	for sc := 0; sc < 1+n/100000; sc++ {
+		realGossip(out, sc)
+	}
 	for c := 0; c < n; c++ {
 		// one case: a multiset of updates for 1..3 shards
 		k := 1 + r.Intn(7)
